@@ -92,6 +92,16 @@ void Logger::processMessage(QtMsgType type, const QMessageLogContext &context,
 
     LogMessage lmsg(type, context, message);
     process(lmsg);
+
+    if (type == QtFatalMsg) {
+        // Qt aborts the process as soon as the message handler returns: hand the buffered
+        // records of the file sinks over to the OS now (in asynchronous mode the sinks belong
+        // to the worker thread and are left alone)
+#ifndef QTLOGGER_NO_THREAD
+        if (!ownThreadIsRunning())
+#endif
+            flush();
+    }
 }
 
 QTLOGGER_DECL_SPEC
